@@ -85,6 +85,9 @@
 (*                       upstream queries go to consecutive upstreams of    *)
 (*                       the configured list                                *)
 (*                                                                         *)
+(* The harness' step "ffwd" puts the resolver's upstream counter where it   *)
+(* stands after 2^31-1 upstream queries (which upstream is next is then     *)
+(* open again); a call that panics is reported by the driver (clause Panic).*)
 (* Unconstrained: the instant lifetime = age, whether expired entries are   *)
 (* dropped early, which upstream is asked first, whether NXDOMAIN answers   *)
 (* with records and NOERROR answers without records are cached (if they     *)
@@ -250,7 +253,7 @@ Step(cfg, g0, e, obs) ==
       lru2 == IF st # <<>> THEN MoveFront(lru1, st[1].k) ELSE IF used THEN MoveFront(lru1, e.k) ELSE lru1
   IN [e     |-> [k \in DOMAIN g.e |-> IF st # <<>> /\ st[1].k = k THEN st[1].ent ELSE IF k \in Range(lru2) THEN g.e[k] ELSE None],
       lru   |-> lru2,
-      rr    |-> IF e.op = "q" /\ e.ups # <<>> THEN LastOf(e.ups) ELSE g.rr,
+      rr    |-> IF e.op = "q" /\ e.ups # <<>> THEN LastOf(e.ups) ELSE IF e.op = "ffwd" THEN 0 ELSE g.rr,
       wall  |-> IF e.op = "wall" THEN (IF e.on THEN g.wall \cup {e.c} ELSE g.wall \ {e.c}) ELSE g.wall,
       block |-> IF e.op = "rule" THEN (IF e.on THEN g.block \cup {e.k} ELSE g.block \ {e.k}) ELSE g.block]
 
